@@ -63,3 +63,6 @@ pub use services::*;
 
 // Re-export types needed to call games::query::query in the root
 pub use protocols::types::{ExtraRequestSettings, TimeoutSettings};
+
+#[cfg(gamedig_verif)]
+pub mod verif_hook;
